@@ -62,6 +62,8 @@ impl View for Fl { type V = real; uninterp spec fn view(&self) -> real; }
     w("pub uninterp spec fn is_positive_r(x: real) -> bool;\n")
     w("pub uninterp spec fn is_negative_r(x: real) -> bool;\n")
     w("pub uninterp spec fn eps_r() -> real;\n")
+    w("pub uninterp spec fn floor_r(x: real) -> int;\n")
+    w("#[verifier::inline] pub open spec fn is_int_r(x: real) -> bool { floor_r(x) as real == x }\n")
     w("#[verifier::inline] pub open spec fn abs_r(x: real) -> real { if x >= 0real { x } else { -x } }\n")
     for c in CONSTS:
         w(f"pub uninterp spec fn c_{c}() -> real;\n")
